@@ -201,7 +201,8 @@ int h_tcp_serve(const char *src, char **script, int nscript) {
 }
 
 /* srvconn: the connection of TCP server `server` is brought up by the real tcpconnect (first episode), then the real tcpclientrd reads
-   the scripted peer (an end of stream is appended to the script, so that every episode ends on a fresh connection with nothing pending).
+   the scripted peer. An episode's script must end where the reader can be left blocked with nothing half-read: behind whole messages,
+   or with the end of the stream (which makes it reconnect).
    The reader thread and its connection stay between episodes: a later srvconn for the same server hands the blocked reader a new
    script. `pd` is the protocol table the server's conf points at: it has the real connecter for the time of an episode. */
 static struct h_cl_ent {
@@ -231,9 +232,9 @@ int h_tcp_client(struct server *server, struct protodefs *pd, char **script, int
             e = &h_cl_tab[i];
     for (i = 0; i < nscript; i++)
         full[i] = script[i];
-    full[nscript] = fin;
+    (void)fin;
     h_script = full;
-    h_nscript = nscript + 1;
+    h_nscript = nscript;
     h_pos = 0;
     pd->connecter = tcpconnect;
     if (!e) {
